@@ -131,6 +131,43 @@ def build_all(prop, cfg, log):
         fcntl.flock(lk, fcntl.LOCK_UN)
     return res
 
+FORBIDDEN = re.compile(r"^\s*(Admitted|Axiom|Axioms|Parameter|Parameters|Conjecture|Admit Obligations|Unset Guard Checking|Unset Positivity Checking|Unset Universe Checking|Set Bypass)\\b|\\badmit\\.|bypass_check|-type-in-type|-impredicative-set")
+
+def strip_coq_comments(text):
+    out, depth, i = [], 0, 0
+    while i < len(text):
+        if text.startswith("(*", i):
+            depth += 1; i += 2
+        elif text.startswith("*)", i) and depth > 0:
+            depth -= 1; i += 2
+        else:
+            if depth == 0:
+                out.append(text[i])
+            elif text[i] == "\n":
+                out.append("\n")
+            i += 1
+    return "".join(out)
+
+def forbidden_scan():
+    """no Admitted/admit/Axiom/Parameter/Conjecture, no Variable/Hypothesis outside a Section, no disabled checks"""
+    hits = []
+    for f in sorted(glob.glob(os.path.join(COQ, "theories", "**", "*.v"), recursive=True)):
+        try:
+            text = strip_coq_comments(open(f).read())
+        except OSError:
+            continue
+        depth = 0
+        for i, ln in enumerate(text.split("\n"), 1):
+            if re.match(r"\s*(Section|Module)\s+\w+", ln) and ":=" not in ln:
+                depth += 1
+            elif re.match(r"\s*End\s+\w+\s*\.", ln):
+                depth = max(0, depth - 1)
+            if FORBIDDEN.search(ln):
+                hits.append("%s:%d: %s" % (os.path.relpath(f, COQ), i, ln.strip()[:80]))
+            elif depth == 0 and re.match(r"\s*(Variable|Variables|Hypothesis|Hypotheses|Context)\b", ln):
+                hits.append("%s:%d: %s (outside a Section)" % (os.path.relpath(f, COQ), i, ln.strip()[:80]))
+    return hits
+
 def parse_props(prop):
     """theorems stated in Props/<prop>.v"""
     path = os.path.join(COQ, "theories", "Props", prop + ".v")
@@ -190,6 +227,13 @@ def main():
     ap.add_argument("--replay")
     a = ap.parse_args()
     prop, tier, seed = a.prop, a.tier, a.seed
+    if a.replay:
+        try:
+            r = json.load(open(a.replay))
+            seed, tier = int(r.get("seed", seed)), r.get("tier", tier)
+            print("replaying %s with seed=%d tier=%s" % (a.replay, seed, tier))
+        except Exception as e:
+            print("cannot read replay file:", e); sys.exit(2)
     if tier not in ("quick", "thorough"):
         tier = "quick"
     t0 = time.time()
@@ -258,6 +302,16 @@ def main():
         else:
             new_viol.append(v)
 
+    fb = forbidden_scan()
+    if fb:
+        broken.append({"kind": "proof", "obligation": "no Admitted/admit/Axiom/Parameter/Conjecture/unchecked commands in coq/theories", "detail": "\n".join(fb[:20])})
+    coqchk_out = None
+    if tier == "thorough" and not broken and not cfg.get("no_props"):
+        rc, out, dt = sh(["coqchk", "-silent", "-o", "-Q", "theories", "Geo", "Geo.Props." + prop], cwd=COQ, timeout=cfg.get("coqchk_timeout", 2400))
+        log.append(("coqchk", rc, dt, out[-3000:]))
+        coqchk_out = out[-3000:]
+        if rc != 0 and rc != 124:
+            broken.append({"kind": "proof", "obligation": "coqchk re-checks Props/%s.vo" % prop, "detail": out[-1500:]})
     thms = parse_props(prop)
     assum = parse_assumptions(b.get("assumptions_raw", ""))
     proof_broken = [x for x in broken if x["kind"] in ("proof", "translator")]
@@ -308,6 +362,7 @@ def main():
             "extra": obs.get("extra", {}),
             "known_findings_reproduced": sorted(known_hits.keys()),
             "steps": [{"step": s, "rc": rc, "wall_s": round(dt, 1)} for (s, rc, dt, _) in log],
+            "coqchk": coqchk_out,
         },
         "assumptions": cfg.get("assumptions", []),
         "wall_s": round(wall, 1),
